@@ -1,5 +1,5 @@
 SPECIFICATION Spec
-CONSTANTS Pitches = {0, 1, 24}
+CONSTANTS Pitches = {5, 6, 29}
           NF = 2
           NP = 2
           W = {1, 2}
